@@ -12,6 +12,10 @@ CHECKS = {
    "Bounded to small ranges (the split/merge code is value-independent apart from the type extremes, which are placed explicitly); trusts the verif_intervals hook, the BTreeSet model and catch_unwind with overflow checks.",
    "DESIGN.md §3 C20"),
 }
+CHECKS["C09"] = ("FRAME", MC, "exhaustive enumeration of stream partitions against the real PacketBuilder and a real connected server",
+   "Every stream made of 1..3 frames from a 12-frame alphabet (zero-length bodies, PUBLISH/Arc and non-PUBLISH/Vec paths, 1-, 2- (thorough: 3-) byte Remaining Length, non-minimal Remaining Length, 5-byte Remaining Length errors, reserved type nibbles) is fed to the real PacketBuilder and to a real connected v3.1.1 and v5.0 server under every composition of the stream (streams <= 13 bytes; thorough <= 17) or every subset of a boundary-centred cut set; the result sequence must equal the refcodec framing of the whole stream and the whole-frame-per-call feeding, the cursor must stop exactly at each frame end, and one recv call may deliver at most one packet.",
+   "Bounded to 3 frames per stream and the stated cut sets for long streams; the builder has 3 control states and its transition relation is covered (state x input-byte class); trusts the refcodec framing function.",
+   "DESIGN.md §3 C09")
 NOT_YET = {}
 
 def main():
